@@ -1217,7 +1217,10 @@ class C08(ExpectSpec):
                   'matcher finds a match exactly when one exists in the exact declarative semantics mx, for all 82 generated patterns). '
                   'C08_first_blocks_independent, C08_line_block_local, C08_delimited_block_local (a block that ends before the end of the input is '
                   'rendered the same, with the same session, whatever follows it: for every suffix, definition table and mode; C08_list_block_local '
-                  'for lists). The per-kind functional equations are decided by the block-grammar oracle and correspondence.')
+                  'for lists). Per kind: C08_plain_paragraph, C08_fenced_code_block (fenced code to pre/code around the escaped content, any content), '
+                  'C08_comment_block_renders_nothing (a comment block renders to the empty string and leaves the session unchanged, whatever it '
+                  'holds); the other kinds (headers, quote and division blocks, HTML blocks, definitions) are decided by the block-grammar oracle '
+                  'and correspondence.')
     rule = ('documents from a block grammar (paragraph, header, fenced code, indented, quote paragraph, quote/division blocks nested to depth 3 '
             'with distinct delimiters and optional class names, HTML block, comments, definitions; 1-2 blank lines) in every safe mode; '
             'expected HTML predicted from the block list; non-trivial = more than one block kind')
